@@ -36,12 +36,20 @@ View(s, a, x) ==
              ELSE IF t \in {"WaitComm", "TestComm"}
                   THEN (IF op.op \in {"wait", "test"} THEN s.hnd[a][op.o].c ELSE s.cur[a])
                   ELSE 0
+      isMx == t \in {"MUTEX_ASYNC_LOCK", "MUTEX_WAIT", "MUTEX_TRYLOCK", "MUTEX_UNLOCK"}
+      isCv == op.op \in {"cvwait", "cvwaitfor"}
+      obj  == IF t \in {"WaitComm", "TestComm"} THEN x.act[c].mb
+              ELSE IF isMx /\ isCv THEN op.p                 \* third simcall of a condition wait: MUTEX_WAIT on its mutex
+              ELSE op.o
   IN  [t |-> t, a |-> a,
-       o |-> IF t \in {"WaitComm", "TestComm"} THEN x.act[c].mb ELSE op.o,
+       o |-> obj,
        c |-> c,
        f |-> IF t \in {"WaitComm", "TestComm"} THEN End(x.act[c].src) ELSE 0 - 1,
        d |-> IF t \in {"WaitComm", "TestComm"} THEN End(x.act[c].dst) ELSE 0 - 1,
-       w |-> IF t \in {"MUTEX_ASYNC_LOCK", "MUTEX_WAIT", "MUTEX_TRYLOCK", "MUTEX_UNLOCK"} THEN End(x.own[op.o]) ELSE 0 - 1]
+       w |-> IF isMx THEN End(x.own[obj]) ELSE 0 - 1,
+       m |-> IF t \in {"CONDVAR_ASYNC_LOCK", "CONDVAR_WAIT"} THEN op.p ELSE 0,            \* mutex of a condition wait
+       g |-> IF t = "CONDVAR_WAIT" /\ s.gr[a] THEN 1 ELSE 0,
+       to |-> IF t = "CONDVAR_WAIT" /\ op.op = "cvwaitfor" THEN 1 ELSE 0]
 Pending(s, a)  == View(s, a, s)
 Executed(s, a) == View(s, a, Handle(P, s, a))
 
